@@ -1039,10 +1039,12 @@ def _helper_for(ast, fn, c, stack):
         return None
     g = cands[0]
     params = [p for p in g.params if p[0] != "self"]
-    if len(params) != len(c["args"]) or any(p[0] is None for p in params) or g.node["sig"].get("async"):
+    if len(params) != len(c["args"]) or any(p[0] is None for p in params):
         return None
+    if g.node["sig"].get("async") and not (c.parent is not None and isinstance(c.parent, Node) and c.parent.k == "await"):
+        return None        # an async helper is inlined only where its future is awaited on the spot
     for x in walk_no_nested_fn(g.body):
-        if x.k in ("return", "await"):
+        if x.k == "return" or (x.k == "await" and not g.node["sig"].get("async")):
             return None
     seen = []
     for (pn, _), a in zip(params, c["args"]):
@@ -1172,8 +1174,8 @@ def inline_helpers(ast, fn, depth=2, keep=()):
                 stmts.append(_mknode({"k": "let", "pat": _copy_tree(pat), "attrs": [], "init": a, "else": None, "sp": c.get("sp")}))
             stmts += _copy_tree(g.body["stmts"])
             blk = _mknode({"k": "block", "stmts": stmts, "sp": c.get("sp"), "inlined_from": g.qual})
-            par, key = c.parent, c.pkey
-            if not _replace_child(par, c, blk):
+            tgt = c.parent if g.node["sig"].get("async") else c       # `helper(..).await` as a whole
+            if not _replace_child(tgt.parent, tgt, blk):
                 continue
             view.inlined.append(g.qual)
             changed = True
